@@ -82,8 +82,12 @@ func main() {
 		os.Exit(2)
 	}
 	workdir, _ := os.MkdirTemp("", "govc-")
-	if !*keep {
-		defer os.RemoveAll(workdir)
+	// os.Exit skips deferred calls: every exit below goes through leave, which removes the scripts first
+	leave := func(code int) {
+		if !*keep {
+			os.RemoveAll(workdir)
+		}
+		os.Exit(code)
 	}
 	switch cmd {
 	case "units":
@@ -162,23 +166,24 @@ func main() {
 		if *keep {
 			fmt.Println("scripts in", workdir)
 		}
-		os.Exit(code)
+		leave(code)
 	case "replay":
-		os.Exit(en.replayFile(*replayPath, *verif))
+		leave(en.replayFile(*replayPath, *verif))
 	case "check":
 		if len(pos) != 1 {
 			fmt.Fprintln(os.Stderr, "check needs one property id")
-			os.Exit(2)
+			leave(2)
 		}
 		if *outDir == "" {
 			*outDir = *verif
 		}
 		en.outDir = *outDir
-		os.Exit(en.checkProperty(pos[0], *tier, *verif, workdir, t0))
+		leave(en.checkProperty(pos[0], *tier, *verif, workdir, t0))
 	default:
 		fmt.Fprintln(os.Stderr, "unknown command", cmd)
-		os.Exit(2)
+		leave(2)
 	}
+	leave(0)
 }
 
 func (en *Engine) execSpecless(u *UnitInfo) bool {
